@@ -61,9 +61,10 @@ def parse_err_record(res):
     head, how_body = res.split("|", 1)
     how, rest = how_body.split("|", 1)
     body, specs = rest.rsplit("|", 1)
-    pv, ph, vline, n, vbytes, hbytes, shifted = head[1:].split(",")
+    pv, ph, vline, n, vbytes, hbytes, shifted, mline, mext, free = head[1:].split(",")
     d = {"pv": int(pv), "ph": int(ph), "vline": int(vline), "n": int(n), "vbytes": int(vbytes), "hbytes": int(hbytes),
-         "shifted": unhexs(shifted), "how": how, "errors": [], "specs": {}, "panic": None}
+         "shifted": unhexs(shifted), "mline": int(mline), "mext": int(mext), "free": free == "1",
+         "how": how, "errors": [], "specs": {}, "panic": None}
     if how == "panic":
         d["panic"] = unhexs(body)
     elif body:
@@ -267,6 +268,14 @@ def do_err(r, q, pending, err_recs, classes):
                 r.hist["err_kind"][e.kind] += 1
                 r.hist["located"]["range" if e.rs is not None else ("line only" if e.line is not None else "none")] += 1
                 check_error_static(r, case, e, d, rec, in_q)
+            # --- the right line: some error of the chain points into the marked failing construct
+            if cls != "planted" and not rec["free"] and in_q:
+                lo = rec["mline"] + rec["n"]
+                hi_ = lo + rec["mext"]
+                mine = [e for e in rec["errors"] if e.name == rec["shifted"] and e.line is not None]
+                if mine and not any(lo <= e.line <= hi_ for e in mine):
+                    r.oracle_failure(case, f"no error of the chain points at the failing construct on line(s) {lo}..{hi_}: "
+                                     + "; ".join(e.brief() for e in rec["errors"]), f"wrong-line:{mine[-1].kind}:{(mine[-1].detail or '')[:40]}")
             # --- shift invariance against the baseline
             be, se = brec["errors"], rec["errors"]
             if rec["how"] != brec["how"] or len(be) != len(se):
@@ -284,6 +293,8 @@ def do_err(r, q, pending, err_recs, classes):
                     if in_q and s.line != line:
                         r.oracle_failure(case, f"error #{d}: line {b.line} unshifted, {s.line} after inserting {rec['n']} lines (expected {line}): {s.brief()}",
                                          f"line-shift:{b.kind}:{(b.detail or '')[:40]}")
+                    if not in_q and (b.rs is None) != (s.rs is None):
+                        continue   # beyond 65535 lines saturated lines coincide: a line-only error may gain a span
                     if (s.rs, s.re) != (rs, re_):
                         r.oracle_failure(case, f"error #{d}: range {b.rs}..{b.re} unshifted, {s.rs}..{s.re} shifted (expected {rs}..{re_}; "
                                          f"v insert {rec['vbytes']}B at {rec['pv']}, h insert {rec['hbytes']}B at {rec['ph']})",
@@ -359,7 +370,8 @@ def do_lex(r, q, pending, case, cfg, spec, res):
     if tail.startswith("err:"):
         _, line, rs, re_ = tail.split(":")
         if "-" in (line, rs, re_):
-            r.oracle_failure(case, f"lexer error without line/range: {tail}", "lex-error-unlocated")
+            # errors of `unescape` are created without a location; the parser attaches one later
+            r.hist["lex_tail"]["err without location (located by the parser)"] += 1
         else:
             err = (int(line), int(rs), int(re_))
             serrs = [err[1]]
@@ -408,6 +420,8 @@ def do_ast(r, q, pending, case, spec, res):
             if sp == (0, 0, 0, 0, 0, 0):
                 continue   # Span::default(): "no location"
             a, b = pos.get(sp[2]), pos.get(sp[5])
+            if sp[:3] == (0, 0, 0) and a is not None:
+                a = (0, 0)  # the root `Template` node starts at `Span::default()` (parser: last_span before any token)
             if sp[2] > sp[5] or a is None or b is None:
                 r.oracle_failure(case, f"AST span {sp} is not a valid slice of the source", "ast-span-invalid")
             elif (sp[0], sp[1], sp[3], sp[4]) != (a[0], a[1], b[0], b[1]):
